@@ -13,6 +13,9 @@ pub struct Opts {
     pub decomp: bool,
     pub share: bool,
     pub keep_false: bool,
+    /// with keep_false: an unsatisfiable component is written as a two-level and-chain above the
+    /// false node (instead of a decision edge into f): exercises the loader's chain deletion
+    pub and_false: bool,
     pub neg_first: bool,
     pub interleave: bool,
     pub order: Vec<u32>,
@@ -21,10 +24,11 @@ pub struct Opts {
 impl Opts {
     pub fn describe(&self) -> String {
         format!(
-            "decomp={} share={} keep_false={} neg_first={} interleave={} order={:?}",
+            "decomp={} share={} keep_false={} and_false={} neg_first={} interleave={} order={:?}",
             self.decomp as u8,
             self.share as u8,
             self.keep_false as u8,
+            self.and_false as u8,
             self.neg_first as u8,
             self.interleave as u8,
             self.order
@@ -37,6 +41,7 @@ impl Opts {
             decomp: rng.coin(),
             share: rng.coin(),
             keep_false: rng.coin(),
+            and_false: rng.chance(1, 3),
             neg_first: rng.coin(),
             interleave: rng.coin(),
             order,
@@ -157,6 +162,8 @@ struct Compiler<'a> {
     memo: HashMap<Cnf, Option<usize>>,
     t: Option<usize>,
     f: Option<usize>,
+    /// nodes that are equivalent to false (and-chains above the false node, ors without a live edge)
+    dead: std::collections::HashSet<usize>,
 }
 
 impl<'a> Compiler<'a> {
@@ -202,8 +209,27 @@ impl<'a> Compiler<'a> {
             let comps = components(cnf);
             if comps.len() > 1 {
                 let mut kids: Vec<usize> = Vec::new();
+                let mut unsat = false;
                 for c in comps.iter() {
-                    kids.push(self.compile(c)?);
+                    match self.compile(c) {
+                        Some(k) if !self.dead.contains(&k) => kids.push(k),
+                        _ => unsat = true,
+                    }
+                }
+                if unsat {
+                    if self.opts.keep_false && self.opts.and_false {
+                        // and( live components ..., and( false ) ): a dead and-chain
+                        let f = self.fnode();
+                        self.nodes.push(DNode::And(vec![f]));
+                        let inner = self.nodes.len() - 1;
+                        kids.push(inner);
+                        self.nodes.push(DNode::And(kids));
+                        let outer = self.nodes.len() - 1;
+                        self.dead.insert(inner);
+                        self.dead.insert(outer);
+                        return Some(outer);
+                    }
+                    return None;
                 }
                 self.nodes.push(DNode::And(kids));
                 return Some(self.nodes.len() - 1);
@@ -235,7 +261,9 @@ impl<'a> Compiler<'a> {
                     let mut lits = vec![lit];
                     lits.extend(implied);
                     edges.push((lits, child));
-                    live += 1;
+                    if !self.dead.contains(&child) {
+                        live += 1;
+                    }
                 }
             }
         }
@@ -259,6 +287,7 @@ pub fn compile(cnf: &Cnf, opts: &Opts) -> Option<Dag> {
         memo: HashMap::new(),
         t: None,
         f: None,
+        dead: Default::default(),
     };
     // top-level units
     let units: Vec<i32> = cnf.iter().filter(|c| c.len() == 1).map(|c| c[0]).collect();
@@ -272,6 +301,9 @@ pub fn compile(cnf: &Cnf, opts: &Opts) -> Option<Dag> {
         c.nodes.push(DNode::Or(vec![(lits, child)]));
         c.nodes.len() - 1
     };
+    if c.dead.contains(&root) {
+        return None;
+    }
     Some(Dag {
         nodes: c.nodes,
         root,
@@ -719,4 +751,88 @@ pub fn rename_cnf(cnf: &Cnf, map: &dyn Fn(u32) -> u32) -> Cnf {
     cnf.iter()
         .map(|c| c.iter().map(|&l| if l > 0 { map(l as u32) as i32 } else { -(map((-l) as u32) as i32) }).collect())
         .collect()
+}
+
+/// d4 text of `dag` with node ids starting at `first` (declarations before use); returns the lines
+/// and the id of the dag's root
+fn emit_d4_offset(dag: &Dag, first: usize) -> (Vec<String>, usize, usize) {
+    fn go(dag: &Dag, n: usize, ids: &mut HashMap<usize, usize>, next: &mut usize, lines: &mut Vec<String>) -> usize {
+        if let Some(&id) = ids.get(&n) {
+            return id;
+        }
+        let id = *next;
+        *next += 1;
+        ids.insert(n, id);
+        match &dag.nodes[n] {
+            DNode::Or(edges) => {
+                lines.push(format!("o {} 0", id));
+                let cids: Vec<usize> = edges.iter().map(|(_, c)| go(dag, *c, ids, next, lines)).collect();
+                for ((lits, _), cid) in edges.iter().zip(cids) {
+                    let mut s = format!("{} {}", id, cid);
+                    for l in lits {
+                        s.push_str(&format!(" {}", l));
+                    }
+                    s.push_str(" 0");
+                    lines.push(s);
+                }
+            }
+            DNode::And(kids) => {
+                lines.push(format!("a {} 0", id));
+                let cids: Vec<usize> = kids.iter().map(|c| go(dag, *c, ids, next, lines)).collect();
+                for cid in cids {
+                    lines.push(format!("{} {} 0", id, cid));
+                }
+            }
+            DNode::True => lines.push(format!("t {} 0", id)),
+            DNode::False => lines.push(format!("f {} 0", id)),
+        }
+        id
+    }
+    let mut ids = HashMap::new();
+    let mut next = first;
+    let mut lines = Vec::new();
+    let root = go(dag, dag.root, &mut ids, &mut next, &mut lines);
+    (lines, root, next)
+}
+
+/// A d4 file with a DEAD two-level and-chain: root decision on x; the x-branch is
+/// and( <live dag of cnf|x>, and( f ) ), the not-x branch is the live dag of cnf|not-x.
+/// The file denotes cnf AND not-x (returned as the effective source formula).
+pub fn emit_d4_dead_chain(cnf: &Cnf, x: i32, opts: &Opts) -> Option<(Vec<String>, Cnf)> {
+    let (pos, _) = propagate(cnf, &[x])?;
+    let (neg, implied) = propagate(cnf, &[-x])?;
+    // the dead branch must not be the only place where a feature is mentioned (in d4's own output
+    // a feature mentioned below a false edge is always mentioned on a live branch as well; the
+    // loader decides "unmentioned = free" before it removes dead branches)
+    let live_vars: BTreeSet<u32> = neg
+        .iter()
+        .flatten()
+        .map(|l| l.unsigned_abs())
+        .chain(implied.iter().map(|l| l.unsigned_abs()))
+        .chain(std::iter::once(x.unsigned_abs()))
+        .collect();
+    if pos.iter().flatten().any(|l| !live_vars.contains(&l.unsigned_abs())) {
+        return None;
+    }
+    let o2 = Opts { keep_false: false, and_false: false, ..opts.clone() };
+    let dpos = compile(&pos, &o2)?;
+    let dneg = compile(&neg, &o2)?;
+    let mut lines = vec!["o 1 0".to_string(), "a 2 0".to_string(), "a 3 0".to_string(), "f 4 0".to_string()];
+    let (lp, rp, next) = emit_d4_offset(&dpos, 5);
+    lines.extend(lp);
+    lines.push("2 3 0".to_string());
+    lines.push("3 4 0".to_string());
+    lines.push(format!("2 {} 0", rp));
+    let (ln, rn, _) = emit_d4_offset(&dneg, next);
+    lines.extend(ln);
+    lines.push(format!("1 2 {} 0", x));
+    let mut s = format!("1 {} {}", rn, -x);
+    for l in implied {
+        s.push_str(&format!(" {}", l));
+    }
+    s.push_str(" 0");
+    lines.push(s);
+    let mut eff = cnf.clone();
+    eff.push(vec![-x]);
+    Some((lines, eff))
 }
